@@ -71,7 +71,10 @@ ConfQuick    == {<<1,100>>, <<1,4>>, <<1,2>>, <<3,4>>, <<7,8>>, <<9,10>>, <<19,2
 ConfThorough == ConfQuick \cup {<<1,1000>>, <<1,3>>, <<2,3>>, <<4,5>>, <<15,16>>, <<31,32>>, <<199,200>>,
                                 <<511,512>>, <<997,1000>>, <<4095,4096>>}
 AlphaAll     == {<<0,1>>, <<1,1000>>, <<1,100>>, <<1,20>>, <<1,10>>, <<1,2>>, <<1,1>>}
-PAll         == {<<0,1>>, <<1,1000>>, <<1,20>>, <<1,10>>, <<1,2>>, <<1,1>>}
+\* incl. p-values that differ from a threshold of AlphaAll only in the fourth decimal
+\* (0.0504 / 0.0496 around 1/20, 0.1004 around 1/10, 0.5004 around 1/2, 0.0104 around 1/100)
+PAll         == {<<0,1>>, <<1,1000>>, <<1,20>>, <<1,10>>, <<1,2>>, <<1,1>>,
+                 <<63,1250>>, <<62,1250>>, <<251,2500>>, <<1251,2500>>, <<13,1250>>}
 OldQuick     == {<<0,1>>, <<1,1>>, <<4,1>>, <<5,1>>, <<-2,1>>, <<7,2>>}
 OldThorough  == OldQuick \cup {<<10,1>>, <<-5,1>>, <<1,2>>, <<-7,2>>, <<25,1>>, <<8,1>>}
 KQuick       == {-10000, -5000, -1234, -1, 0, 1, 50, 2857, 10000, 28571}
